@@ -101,6 +101,11 @@ class Checker(C.BaseChecker):
         new = [(c, m) for c, m in allv if c not in prev]
         if not new:
             self.ok()
+        elif prev:
+            # the state violated TocInv already BEFORE this operation (reported when it first broke): further damage is a
+            # consequence of that (the contract is `requires TocInv ensures TocInv`); counted, not reported separately
+            self.followups = getattr(self, "followups", 0) + 1
+            new = []
         seen_codes = set()
         for c, m in new:
             if c in seen_codes:
@@ -115,14 +120,17 @@ class Checker(C.BaseChecker):
 
 
 RULE = (
-    "histories over the container operation alphabet (create dataset/group, delete, copy with/without metadata "
-    "(path and into-group/name= forms), move, attach, detach, reopen, IH5 patch boundary) on h5py.File and IH5Record; "
-    "phase 1 scripted sweep over every schema x instance; phase 2 BFS from the empty container with a pruned alphabet "
-    "(names /d /g /g/e /c /g/c, schemas vt.bb vt.cc vt.l3 [thorough: + vt.aa vt.l2 core.file /g/h]) with de-duplication on the canonical raw dump "
-    "(UUIDs abstracted) + in-memory managers (+ IH5 physical layout); per state a fixed list of failure-provoking operations "
-    "(attach twice, delete/detach missing, copy/move onto existing, unknown/auxiliary/unsupported-version schema, reserved names) and a reopen; "
-    "phase 3 seeded random walks over the full alphabet and all families. A case is (driver, abstract state before, operation); "
-    "non-trivial iff the operation changed the state, raised, or was a reopen/patch boundary. Moving a node into its own subtree is excluded."
+    "histories over the container operation alphabet (create dataset/group, delete, copy with/without metadata in path form, into-group form with name= and "
+    "source-as-node form, move, attach (by name / (name,version) / class / PluginRef; object or dict), detach, reopen, IH5 patch boundary) on h5py.File and IH5Record. "
+    "(1) sweep: scripted histories attaching every generated instance of every installed and harness-registered schema to a dataset, a group and the root, then "
+    "copy/move/patch boundary/detach/reopen/copy without metadata/delete, plus scenarios (inheritance chains, several versions of one name, delete and re-create across patches, copy into the root group object). "
+    "(2) exhaustive bounded search (every (distinct state, operation) pair once; de-duplication on the canonical raw scan with UUIDs abstracted + in-memory managers + IH5 physical layout; "
+    "states re-materialised by replay, exploration continues on the live container) over three pruned alphabets: 'toggle' = attach/detach of vt.bb vt.cc vt.l3 [thorough: vt.aa vt.bb vt.cc vt.l2 vt.l3] on / and /d (+patch boundary) from [mkds /d]; "
+    "'tree' = delete/copy(+-meta)/move/into-group copies/detach (+a rotating quarter of the failure probes) from a container with metadata on /g, /g/e, /d; "
+    "'general' = from the empty container: names /d /g /g/e [/g/h] /c /g/c /k, schemas vt.bb vt.cc vt.l3 [thorough: + vt.aa vt.l2 core.file] and the failure-provoking operations "
+    "(attach twice, delete/detach missing, copy/move onto existing or from missing, unknown/auxiliary/unsupported-version schema, reserved names in every position; all of them in small states, a rotating third in larger ones); every state gets a close+reopen check. "
+    "(3) seeded random walks over the full alphabet and all families. A case is (driver, abstract state before, operation); non-trivial iff the operation changed the state, raised, or was a reopen/patch boundary. "
+    "Moving a node into its own subtree is excluded (property); copying a group into its own subtree is included where it terminates."
 )
 
 
